@@ -21,3 +21,25 @@ package luastrings
 //@   trusted
 //@   modifies nothing
 //@   ensures bytes.IndexByte(b, 13) == -1 ==> result == b
+
+// C04: the decoders used by the utf8 library consume between 1 and 6 bytes of a
+// non-empty string and never more than it has (0 for the empty string), so a
+// scan `k += size` stays inside the string.  The lax decoder (Lua's 5- and
+// 6-byte forms) is verified against the byte class table `first`; Go's
+// utf8.DecodeRuneInString is axiomatised in the engine; calls through the
+// function value returned by GetDecodeRuneInString use the function-type
+// contract below (only these two functions flow there).
+//@ func DecodeRuneInString
+//@   prop C04
+//@   arith bv
+//@   modifies nothing
+//@   ensures len(s) == 0 ==> size == 0
+//@   ensures len(s) > 0 ==> 1 <= size && size <= len(s) && size <= 6
+//@   ensures r >= 0
+
+//@ func functype:func(string) (rune, int)
+//@   trusted
+//@   pure
+//@   ensures len(arg0) == 0 ==> result1 == 0
+//@   ensures len(arg0) > 0 ==> 1 <= result1 && result1 <= len(arg0) && result1 <= 6
+//@   ensures result0 >= 0
